@@ -411,7 +411,7 @@ def apply_maploops(ed, it, closures, src, ann, qual, relpath):
             chain_end += 1
         xsrc = src[chain_start:itc["recv_end"]].decode()
         ptxt = src[c["params"][0]["span"][0]:c["params"][0]["span"][1]].decode()
-        bind = (f"let {ptxt} = verif_src[verif_i].clone();" if itc["name"] == "into_iter"
+        bind = (f"let {ptxt} = verif_elem(&verif_src, verif_i);" if itc["name"] == "into_iter"
                 else f"let {ptxt} = &verif_src[verif_i];")
         bs0, bs1 = c["body"]
         head = ("{ let verif_src = " + xsrc + "; let mut verif_out" + (f": Vec<{elem_ty}>" if elem_ty else "") + " = Vec::new(); let mut verif_i: usize = 0;\n"
